@@ -20,19 +20,46 @@ LOGGERS = [
     ("NNT0", 2),         # the not_filter<not_filter<F>> specialisation
     ("OAT0NT1NZ", 2),    # depth 3, with a negated null filter
 ]
-KINDS = "SNC"            # item kinds: std::string, long long, callable
-SHAPES = ["".join(t) for n in range(4) for t in itertools.product(KINDS, repeat=n)]   # 40 one-expression shapes
+KINDS = "SNC"            # structural item kinds: std::string, long long, callable
+# C++ shapes of a streamed callable (LogModel.ckind; the model ignores them, the harness instantiates each):
+#   o function object (temporary)      l lambda (temporary)               p plain function / function pointer
+#   f std::function<std::string()> variable streamed as an lvalue         F std::function<std::string()> temporary
+#   c std::function<const char*()> variable    k const function object (variable)    v lambda stored in a variable (lvalue)
+# (a std::function returning a NUMBER is not a lazily evaluated callable for the library: is_callable<T, std::string()> is
+#  false and `stream << f` does not compile, so it cannot be part of a statement)
+CKINDS = "olpfFckv"
+STRUCT_SHAPES = ["".join(t) for n in range(4) for t in itertools.product(KINDS, repeat=n)]   # 40 structural shapes
+SHAPES = [s.replace("C", "o") for s in STRUCT_SHAPES]
 NSLOTS = 4
 
-VFILES = ["Log/LogModel.v", "Log/LogSpec.v", "Log/LogProofs.v", "Extract/Extract_Log.v", "Tie/Tie_C05.v"]
+# only the property, tie and extraction files: their dependencies (Log/*.v, Gen/GenSeverity.v) are built by make, and the
+# obligations counted in the evidence are the property theorems and the tie obligations
+VFILES = ["Extract/Extract_Log.v", "Tie/Tie_C05.v"]
 
 # one-expression statement shapes instantiated per logger: all 40 for two loggers, a subset for the others
 FULL_SHAPE_LOGGERS = (0, 5)
-REDUCED_SHAPES = [s for s in SHAPES if len(s) <= 2] + ["SNC", "CCC", "CSC", "NCS"]
+REDUCED_SHAPES = [s for s in SHAPES if len(s) <= 2] + ["SNo", "ooo", "oSo", "NoS"]
+# every callable kind alone and after a string item, for every logger; for the two full loggers also every ordered pair of
+# kinds and an lvalue std::function streamed twice
+KIND_SHAPES = [k for k in CKINDS if k != "o"] + ["S" + k for k in CKINDS if k != "o"]
+PAIR_SHAPES = [a + b for a in CKINDS for b in CKINDS if a + b != "oo"] + ["fNf"]
 
 
 def shapes_for(lg):
-    return SHAPES if lg in FULL_SHAPE_LOGGERS else REDUCED_SHAPES
+    return (SHAPES + KIND_SHAPES + PAIR_SHAPES) if lg in FULL_SHAPE_LOGGERS else (REDUCED_SHAPES + KIND_SHAPES)
+
+
+_SHAPE_SETS = {}
+
+
+def has_shape(lg, sh):
+    if lg not in _SHAPE_SETS:
+        _SHAPE_SETS[lg] = set(shapes_for(lg))
+    return sh in _SHAPE_SETS[lg]
+
+
+def item_letter(it):
+    return it[3] if it[0] == "C" else it[0]
 
 
 GEN_SRC = "harness/gen/log_driver.cpp"
@@ -117,7 +144,7 @@ def itemw(it):
         return "S" + hx(it[1])
     if k == "N":
         return "N%d" % it[1]
-    return "C%d.%s" % (it[1], hx(it[2]))
+    return "C%s%d.%s" % (it[3], it[1], hx(it[2]))
 
 
 def itemsw(its):
@@ -213,7 +240,7 @@ def shape_items(shape, variant=0):
         elif k == "N":
             out.append(("N", [7, -12, 0, 9007199254740993][(p + variant) % 4]))
         else:
-            out.append(("C", p + 1 + 3 * variant, "<%d>" % (p + 1)))
+            out.append(("C", p + 1 + 3 * variant, "<%d>" % (p + 1), k))
     return out
 
 
@@ -271,12 +298,15 @@ def rand_item(rng, nid):
         return ("S", "".join(rng.choice("ab |:\x00\n\xff%") for _ in range(n)))
     if k == "N":
         return ("N", rng.choice([0, 1, -1, 42, -7, 10, 99, 100, 2 ** 31, -2 ** 31, 2 ** 63 - 1, -2 ** 63, rng.randint(-10 ** 6, 10 ** 6)]))
-    return ("C", rng.randint(0, nid), "".join(rng.choice("xyz ") for _ in range(rng.choice([0, 1, 3]))))
+    return ("C", rng.randint(0, nid), "".join(rng.choice("xyz ") for _ in range(rng.choice([0, 1, 3]))), rng.choice(CKINDS))
 
 
 def fit(lg, its):
     """a one-expression statement must use a shape instantiated for its logger"""
-    return its if "".join(i[0] for i in its) in shapes_for(lg) else its[:2]
+    if has_shape(lg, "".join(item_letter(i) for i in its)):
+        return its
+    plain = [i[:3] + ("o",) if i[0] == "C" else i for i in its]
+    return plain if has_shape(lg, "".join(item_letter(i) for i in plain)) else plain[:2]
 
 
 def rand_tag(rng):
@@ -344,8 +374,9 @@ def mid_threshold_cases():
             for sv in range(6):
                 for t_before in (0, sv, min(5, sv + 1)):
                     for t_after in (0, 5):
-                        ops = [op_set(0, t_before), op_open(1, lg, sv, "g"), op_put(1, ("C", 1, "p")), op_set(0, t_after), op_set(1, t_after),
-                               op_one(lg, sv, None, [("C", 2, "q")]), op_put(1, ("S", "r")), op_close(1)]
+                        k = CKINDS[(lg + sv + t_before + t_after) % len(CKINDS)]
+                        ops = [op_set(0, t_before), op_open(1, lg, sv, "g"), op_put(1, ("C", 1, "p", k)), op_set(0, t_after), op_set(1, t_after),
+                               op_one(lg, sv, None, [("C", 2, "q", k)]), op_put(1, ("S", "r")), op_close(1)]
                         yield case(mn, ops), "mid-threshold"
 
 
@@ -377,10 +408,10 @@ class LogCheck(Check):
         yield from mid_threshold_cases()
         if tier == "quick":
             yield from quick_deterministic()
-            # every 3rd statement of the complete single-statement space (3 is coprime to the inner loop sizes 40, 17, 2, 2, 6)
+            # every 5th statement of the complete single-statement space (5 is coprime to the inner loop sizes 118, 31, 2, 2, 6)
             for n, c in enumerate(single_statement_space()):
-                if n % 3 == 1:
-                    yield c, "stmt-stride3"
+                if n % 5 == 1:
+                    yield c, "stmt-stride5"
             nprog, nseq = 6000, 3000
         else:
             for c in single_statement_space():
